@@ -333,7 +333,7 @@ func (s *Solver) solveOne(q *Query) {
 	}
 	// stage 0b: ground instantiation of the quantified hypotheses at matching terms, goal skolemised
 	if !q.Canary {
-		if gi := q.buildGinst(3); gi != nil && (gi.instances > 0 || gi.skolems > 0) {
+		if gi := q.buildGinst(ginstRounds()); gi != nil && (gi.instances > 0 || gi.skolems > 0) {
 			ifile := filepath.Join(s.dir, h+".i.smt2")
 			_ = os.WriteFile(ifile, []byte(gi.text), 0o644)
 			ctx, cancel := context.WithCancel(context.Background())
